@@ -3,7 +3,7 @@
 Proof: coq/Properties/C20.v over the model coq/Cli/Rates.v.
 Tie, three layers, all against the `fend` binary built from /repo:
   L1  `fend --verif-hook rates-stdin <eu|un>`  (parse_exchange_rates_eu/_un alone)
-      vs the model's parser, on every prefix and on single-character
+      vs the model's parser (EU: the repaired one, fixed = 1), on every prefix and on single-character
       substitutions of representative files, plus a hand-made boundary corpus;
   LF  `fend --verif-hook load-cached`  (timestamp;payload framing, expiry)
       vs the model's load_cached on a corpus of framings;
@@ -23,7 +23,8 @@ from concurrent.futures import ThreadPoolExecutor
 import vlib
 from vlib import sx, Sym, parse_sx, try_parse
 
-CLS = 'eu-split-at-3'
+CLS = 'eu-split-at-3'      # repaired by /repo 348454e; listed as fixed, so a panic is a VIOLATION again
+FIXED = 1                  # the model of the EU parser as it stands (split_at_checked)
 TRUSTED_BASE = [
     'Coq 8.16.1 kernel + vm_compute (witness, examples)',
     'extraction ExtrOcamlBasic -> OCaml, modelrun/driver.ml; cross-checked against vm_compute on a sample',
@@ -294,7 +295,7 @@ def l1_blocks(c, fend, oracle, blocks, stats):
         for per in parse_sx(o):
             toks.setdefault(bi, set()).update(per)
     oracle.need(set().union(*toks.values()) if toks else set())
-    rl = [(bi, sx([Sym('rates-batch'), b[0], 0, b[1], oracle.table(toks.get(bi, ())), [list(e) for e in g]]))
+    rl = [(bi, sx([Sym('rates-batch'), b[0], FIXED, b[1], oracle.table(toks.get(bi, ())), [list(e) for e in g]]))
           for bi, b in enumerate(prep) for g in b[5]]
     mod_out = model_lines(c, [l for _, l in rl])
     model = {}
@@ -526,7 +527,7 @@ def l3_layer(c, fend, oracle, scratch, jobs, stats):
         for per in parse_sx(o):
             toks.setdefault(bi, set()).update(per)
     oracle.need(set().union(*toks.values()) if toks else set())
-    cl = [(bi, sx([Sym('cache-batch'), b[0], 0, now, age, b[1], oracle.table(toks.get(bi, ())), CURS, [list(e) for e in g]]))
+    cl = [(bi, sx([Sym('cache-batch'), b[0], FIXED, now, age, b[1], oracle.table(toks.get(bi, ())), CURS, [list(e) for e in g]]))
           for bi, b in enumerate(prep) for g in b[4]]
     mods = {}
     for (bi, _), o in zip(cl, model_lines(c, [l for _, l in cl])):
@@ -708,6 +709,10 @@ def check(c):
     l1_blocks(c, fend, oracle, blocks, stats)
     lap('L1-files')
     bdocs = {0: boundary_eu(), 1: boundary_un()}
+    # witnesses of repaired defects, kept in the corpus: a regression shows up as a panic = VIOLATION
+    for fn in sorted(os.listdir(CORPUS)):
+        if fn.startswith('fixed_') and fn.endswith('.json'):
+            bdocs[0] += [bytes.fromhex(h) for h in json.load(open(os.path.join(CORPUS, fn))).get('payloads_hex', [])]
     blocks = []
     for src in (0, 1):
         for i, d in enumerate(bdocs[src]):
